@@ -128,6 +128,11 @@ TEMPLATES = {
                'missing="-">:<dtml-var y>,'
                '</dtml-in>|<dtml-in kinds size=2 orphan=0><dtml-var '
                'sequence-index><dtml-var x>,</dtml-in>',
+    # a late page of a long listing: row numbers beyond 40 (what a lazily
+    # extended table of numerals / letters would have to be extended for)
+    'inroman': '<dtml-in long start=st40 size=6 orphan=0><dtml-var '
+               'sequence-Roman>.<dtml-var sequence-roman>.<dtml-var '
+               'sequence-number>,</dtml-in>',
     'tiny': 'a<dtml-var x>b',
     'with': '<dtml-with o><dtml-var x></dtml-with><dtml-with "m" mapping>'
             '<dtml-var x></dtml-with>',
@@ -180,7 +185,8 @@ def namespace(name, i):
     ns = {'by': by, 'sf': ('k/by', 'j/by', 'k')[i],
           'x': 'x' + tag, 'y': 'y<' + tag, 'c': 'c' + tag if i != 1 else '',
           'seq': seqs[i], 'sk': ('k', 'j', 'k')[i], 'rv': i == 1,
-          'st': (1, 2, 1)[i], 'o': o, 'm': {'x': 'mx' + tag}, 'boom': boom,
+          'st': (1, 2, 1)[i], 'st40': (40, 41, 39)[i],
+          'long': [E(n, i) for n in range(48)], 'o': o, 'm': {'x': 'mx' + tag}, 'boom': boom,
           'lst': [], 'sub': HTML('[<dtml-var x>]'),
           'kinds': (['s1', 's2', 's3'], [E(1, 2), E(3, 4), E(5, 6)],
                     [('p', E(7, 8)), ('q', 's')])[i],
@@ -203,6 +209,56 @@ def prewarm():
          '</dtml-if><dtml-unless a></dtml-unless><dtml-raise a>'
          '</dtml-raise><dtml-try><dtml-except></dtml-try><dtml-let a=b>'
          '</dtml-let><dtml-tree a></dtml-tree>').cook()
+
+
+# -- library-level mutable state -----------------------------------------
+# Stateless exploration assumes that every execution starts in the same
+# state.  Module- and class-level containers of the library (lazily filled
+# tables, memos) would carry what one execution built into the next one, so
+# that a race on building them could show in the first execution of a
+# process only.  They are snapshot after pre-warming and put back before
+# every execution (and before the sequential baseline).
+
+_globals_snapshot = []
+
+
+def _library_containers():
+    import sys
+    pref = prefixes()
+    seen = set()
+    for mod in list(sys.modules.values()):
+        f = getattr(mod, '__file__', None)
+        if not f or not os.path.realpath(f).startswith(pref):
+            continue
+        if '/tests' in f:
+            continue
+        holders = [mod]
+        holders += [v for v in vars(mod).values() if isinstance(v, type) and
+                    getattr(v, '__module__', None) == mod.__name__]
+        for h in holders:
+            for name, v in list(vars(h).items()):
+                if name.startswith('__'):
+                    continue
+                if type(v) in (list, dict, set) and id(v) not in seen:
+                    seen.add(id(v))
+                    yield v
+
+
+def snapshot_library_state():
+    if not _globals_snapshot:
+        for v in _library_containers():
+            _globals_snapshot.append((v, type(v)(v)))
+    return len(_globals_snapshot)
+
+
+def restore_library_state():
+    for v, saved in _globals_snapshot:
+        if v != saved or (type(v) is list and len(v) != len(saved)):
+            if type(v) is list:
+                v[:] = saved
+            else:
+                v.clear()
+                v.update(saved)
 
 
 _lock = []
@@ -238,6 +294,7 @@ def baseline(name, nthreads):
     from DocumentTemplate import HTML
     out = []
     for i in range(nthreads):
+        restore_library_state()
         out.append(call(HTML(TEMPLATES[name]), namespace(name, i)))
     return out
 
@@ -256,6 +313,7 @@ SMALL_SITES = {
     'call': ['DT_Util.py', 'DT_Return.py'],
     'inbatch': ['DT_InSV.py', 'DT_Util.py'],
     'inbatchsortexpr': ['DT_InSV.py', 'DT_Util.py'],
+    'inroman': ['DT_InSV.py'],
     'in': ['DT_Util.py'],
 }
 BIG_SITES = {
@@ -318,6 +376,7 @@ def make_bodies_factory(name, fam, nthreads):
     ref_digest = digest(fingerprint(ref._v_blocks))
 
     def make():
+        restore_library_state()
         t = HTML(TEMPLATES[name])
         if fam == 'steady':
             t.cook()
@@ -417,6 +476,8 @@ def run(case):
     res = Res()
     prewarm()
     lock = the_lock()
+    res.count('library-containers-reset-per-execution',
+              0 if _globals_snapshot else snapshot_library_state())
     name, fam, nthreads = case['tmpl'], case['fam'], case['threads']
     base = baseline(name, nthreads)
     if 'choices' in case:
